@@ -58,6 +58,24 @@ Theorem C06_order_independent :
 Proof. exact batch_order_independent. Qed.
 Print Assumptions C06_order_independent.
 
+(* No check state is shown the same stage of a message twice - the connection, the sender, a given
+   recipient, the body - for every script of verdicts, every configuration of global, per-sender and
+   per-block checks and every list of recipients; stated on the call log of the whole message. *)
+Require Maddy.Pipeline.ChecksOnce.
+Theorem C06_no_state_sees_a_stage_twice :
+  forall script cfg l,
+    NoDup (map ChecksOnce.key (o_log (run_message script cfg l))).
+Proof. exact ChecksOnce.no_state_sees_a_stage_twice. Qed.
+Print Assumptions C06_no_state_sees_a_stage_twice.
+
+(* the same in the form the monitor evaluates on the implementation's call log (clause 6) *)
+Theorem C06_model_outcomes_pass_clause_6 :
+  forall script cfg l,
+    let o := run_message script cfg l in
+    forallb (fun cl : call => Nat.leb (ChecksCorr.calls_of o (snd (fst cl)) (snd cl)) 1) (o_log o) = true.
+Proof. exact ChecksOnce.model_outcomes_pass_clause_6. Qed.
+Print Assumptions C06_model_outcomes_pass_clause_6.
+
 (* non-vacuity *)
 Example C06_example :
   let script := fun (c : N) (st : stage) => match c, st with 1, SBody => VQuar | 2, SRcpt 7 => VReject | _, _ => VNone end in
